@@ -721,7 +721,7 @@ def run(ctx: core.Ctx):
     ctx.log(f"(b) lit(): {n_lit} select statements; {len(cell_items)} distinct columns in total")
 
     # ---- evaluate the columns in Coq
-    res = ctx.cases("c09_cell", H_CELL, cell_items, per_file=shard_size(cell_items), result_ty="str")
+    res = eval_cases(ctx, "c09_cell", H_CELL, cell_items)
     n_eval += len(cell_items)
     n_dom = n_cells = 0
     model_fail, dom_fail = [], []
@@ -813,7 +813,7 @@ def run(ctx: core.Ctx):
     ctx.log(f"(e) {n_where} where() queries")
 
     # ---- (c) statements
-    res = ctx.cases("c09_stmt", H_STMT, stmt_items, per_file=shard_size(stmt_items), result_ty="str")
+    res = eval_cases(ctx, "c09_stmt", H_STMT, stmt_items)
     n_eval += len(stmt_items)
     n_cert = 0
     for m, x in zip(stmt_meta, res):
@@ -880,12 +880,27 @@ def run(ctx: core.Ctx):
                     "checks/c09.py encoders py2coq/armour (Python value -> Coq term) and the DB-API proxy that records statement texts"]
 
 
-def shard_size(items, budget=300_000):
-    """cases per Coq file: about 14 shards, but never more than ~300 kB of terms in one file (coqc's stack)"""
+def shard_size(items, budget=250_000):
+    """cases per Coq file: about 14 shards, but never more than ~250 kB of terms in one file (coqc's stack)"""
     if not items:
         return 1
     avg = sum(len(x) for x in items) / len(items)
-    return max(4, min(len(items) // 14 + 1, int(budget / max(1.0, avg))))
+    return max(2, min(len(items) // 14 + 1, int(budget / max(1.0, avg))))
+
+
+def eval_cases(ctx, tag, header, items, big=4000):
+    """ctx.cases with the large terms in shards of their own (a file of many large terms overflows coqc's stack)"""
+    idx_big = [i for i, x in enumerate(items) if len(x) > big]
+    idx_small = [i for i, x in enumerate(items) if len(x) <= big]
+    out = [None] * len(items)
+    for sub, idx in (("", idx_small), ("L", idx_big)):
+        if not idx:
+            continue
+        sub_items = [items[i] for i in idx]
+        res = ctx.cases(tag + sub, header, sub_items, per_file=shard_size(sub_items), result_ty="str")
+        for i, r in zip(idx, res):
+            out[i] = r
+    return out
 
 
 def one_clean(one):
